@@ -70,15 +70,29 @@ structure Env where
   maps : List (Text × List Row)
   deriving Repr, DecidableEq
 
+/-- branch condition under which a variant of a call site is the one that runs, as far as the model can evaluate it -/
+inductive Guard where
+  | mapEmpty (m : Text)
+  | mapNonEmpty (m : Text)
+  deriving Repr, DecidableEq
+
 structure Op where
   key : Text
   variant : Nat
   line : Nat
   tpl : List Piece
   supplied : List Text
+  guards : List Guard
   deriving Repr
 
 def emptyRow : Row := ⟨[], []⟩
+
+def Guard.holds (e : Env) : Guard → Bool
+  | .mapEmpty m => (match e.maps.find? (fun p => p.1 == m) with | some p => p.2.isEmpty | none => true)
+  | .mapNonEmpty m => (match e.maps.find? (fun p => p.1 == m) with | some p => !p.2.isEmpty | none => false)
+
+/-- the variant can run in environment `e` -/
+def Op.reachable (op : Op) (e : Env) : Bool := op.guards.all (Guard.holds e)
 
 def get (l : List (Text × Text)) (x : Text) : Text :=
   match l.find? (fun p => p.1 == x) with
@@ -310,24 +324,87 @@ def dottedCall : List Tok → Bool
     else false
   | _ => false
 
-structure Scan where
-  bound : List Codes
-  used : List Codes
-
 def addNew (l : List Codes) (x : Codes) : List Codes := if l.contains x then l else l ++ [x]
 
-/-- one pass over the tokens with two tokens of left context -/
-def scan : List Tok → Option Tok → Option Tok → Bool → Scan → Scan
-  | [], _, _, _, s => s
-  | cur :: rest, p2, p1, inYield, s =>
-    let nx := rest.head?
-    match cur with
-    | .id x =>
-      let kw := isKw x
-      if inYield && !kw then scan rest p1 (some cur) true ⟨addNew s.bound x, s.used⟩
+/-- words that open a clause -/
+def clauseWords : List Codes := [
+  n!"match", n!"optional", n!"where", n!"return", n!"with", n!"call", n!"yield", n!"set", n!"remove", n!"detach", n!"delete",
+  n!"unwind", n!"union", n!"order", n!"limit", n!"skip", n!"create", n!"merge", n!"foreach"]
+/-- words that must be followed by an operand -/
+def needsOperand : List Codes := [
+  n!"where", n!"set", n!"return", n!"with", n!"and", n!"or", n!"xor", n!"not", n!"remove", n!"delete", n!"unwind", n!"match",
+  n!"yield", n!"as", n!"in", n!"by", n!"on", n!"limit", n!"skip", n!"call", n!"when", n!"then", n!"else"]
+/-- words that cannot be that operand -/
+def badFollowerWords : List Codes := [
+  n!"match", n!"optional", n!"where", n!"return", n!"with", n!"call", n!"yield", n!"set", n!"remove", n!"detach", n!"delete",
+  n!"unwind", n!"union", n!"order", n!"limit", n!"skip", n!"create", n!"merge", n!"on", n!"and", n!"or", n!"xor", n!"as", n!"in",
+  n!"then", n!"else", n!"end", n!"when", n!"by"]
+
+def isOpener (c : Nat) : Bool := c == cp%'(' || c == cp%'[' || c == cp%'{'
+def isCloser (c : Nat) : Bool := c == cp%')' || c == cp%']' || c == cp%'}'
+
+def badFollower (t : Option Tok) : Bool :=
+  match t with
+  | none => true
+  | some (.id y) => badFollowerWords.contains (lower y)
+  | some (.sym c) => isCloser c || c == cp%',' || c == cp%';' || c == cp%'|'
+  | _ => false
+
+def isClauseTok (t : Option Tok) : Bool :=
+  match t with
+  | some (.id y) => clauseWords.contains (lower y)
+  | _ => false
+
+/-- state of the scoping pass.  `scope`: variables carried into the current scope by the last WITH; `segB` / `segU`: variables
+bound / used since then; `carry`: what the WITH clause being read lists or aliases. -/
+structure St where
+  depth : Nat
+  inYield : Bool
+  inItems : Bool
+  star : Bool
+  scope : List Codes
+  segB : List Codes
+  segU : List Codes
+  carry : List Codes
+  unbound : List Codes
+  emptyClause : Bool
+  dangling : Bool
+
+def St.init : St := ⟨0, false, false, false, [], [], [], [], [], false, false⟩
+
+/-- end of a scope: uses not bound in it are reported; a WITH clause hands on only what it lists (everything after `*`),
+UNION (`reset`) starts from nothing -/
+def St.close (s : St) (reset : Bool) : St :=
+  let ub := s.segU.foldl (fun acc x => if s.scope.contains x || s.segB.contains x || acc.contains x then acc else acc ++ [x]) s.unbound
+  let scope' := if reset then [] else if s.inItems then s.carry ++ (if s.star then s.scope ++ s.segB else []) else s.scope ++ s.segB
+  { s with unbound := ub, scope := scope', segB := [], segU := [], inItems := false }
+
+def step (s0 : St) (p2 p1 : Option Tok) (cur : Tok) (rest : List Tok) : St :=
+  let nx := rest.head?
+  let ec := match cur with
+    | .id x => needsOperand.contains (lower x) && badFollower nx
+    | _ => false
+  let dg := match cur with
+    | .sym c => (c == cp%',' && (match nx with | none => true | some (.sym d) => isCloser d || d == cp%',' | _ => false)) ||
+                (isOpener c && isSym nx cp%',')
+    | _ => false
+  let s : St := { s0 with emptyClause := s0.emptyClause || ec, dangling := s0.dangling || dg }
+  match cur with
+  | .id x =>
+    let lw := lower x
+    let kw := keywords.contains lw
+    let s1 : St :=
+      if s.depth == 0 then
+        let withClause := lw == n!"with" && !(isWord p1 n!"starts" || isWord p1 n!"ends")
+        let sA := if clauseWords.contains lw && (lw != n!"with" || withClause) && s.inItems then s.close false else s
+        let sB := if lw == n!"union" then sA.close true else sA
+        if withClause then { sB with inItems := true, carry := [], star := false } else sB
+      else s
+    let s2 : St :=
+      if s1.inYield && !kw then { s1 with segB := addNew s1.segB x }
       else
-        let yl := lower x == n!"yield"
-        if kw then scan rest p1 (some cur) yl s
+        let s' : St := { s1 with inYield := lw == n!"yield" }
+        if kw then s'
         else
           let b1 := isSym p1 cp%'(' && !isCallee p2 && !isSym nx cp%'.' && !isSym nx cp%'('
           let b2 := isSym p1 cp%'[' && isSym p2 cp%'-'
@@ -336,30 +413,47 @@ def scan : List Tok → Option Tok → Option Tok → Bool → Scan → Scan
           let b6 := isSym nx cp%'=' && !isSym p1 cp%'.'
           let u := !isSym p1 cp%'.' && !isSym p1 cp%':' && !isSym nx cp%':' && !isSym nx cp%'(' &&
                    !(isSym nx cp%'.' && dottedCall rest) && !isWord p1 n!"index"
-          let bound' := if b1 || b2 || b3 || b4 || b6 then addNew s.bound x else s.bound
-          let used' := if u then addNew s.used x else s.used
-          scan rest p1 (some cur) false ⟨bound', used'⟩
-    | .sym c =>
-      if inYield && (c == cp%',' || c == cp%'*') then scan rest p1 (some cur) true s
-      else scan rest p1 (some cur) false s
-    | _ => scan rest p1 (some cur) false s
+          { s' with segB := if b1 || b2 || b3 || b4 || b6 then addNew s'.segB x else s'.segB,
+                    segU := if u then addNew s'.segU x else s'.segU }
+    if s2.inItems && s2.depth == 0 && !kw then
+      let itemStart := isWord p1 n!"with" || isWord p1 n!"distinct" || isSym p1 cp%','
+      let itemEnd := (match nx with | none => true | _ => false) || isSym nx cp%',' || isClauseTok nx
+      if (itemStart && itemEnd) || isWord p1 n!"as" then { s2 with carry := addNew s2.carry x } else s2
+    else s2
+  | .sym c =>
+    let s1 : St := { s with inYield := s.inYield && (c == cp%',' || c == cp%'*') }
+    let s2 : St := if s1.inItems && s1.depth == 0 && c == cp%'*' && (isWord p1 n!"with" || isWord p1 n!"distinct")
+      then { s1 with star := true } else s1
+    if isOpener c then { s2 with depth := s2.depth + 1 }
+    else if isCloser c then { s2 with depth := s2.depth - 1 }
+    else s2
+  | _ => { s with inYield := false }
+
+/-- one pass over the tokens with two tokens of left context -/
+def scan : List Tok → Option Tok → Option Tok → St → St
+  | [], _, _, s => s.close false
+  | cur :: rest, p2, p1, s => scan rest p1 (some cur) (step s p2 p1 cur rest)
 
 structure Lint where
   defects : List String
   unbound : List Codes
   missing : List Codes
 
+/-- Well-formedness as the property names it, decided on tokens: balanced; nothing unexpanded; every `$name` supplied; every
+variable bound in its scope (WITH at bracket depth 0 starts a new scope, UNION starts from nothing; patterns, AS, YIELD,
+UNWIND … AS and comprehensions bind); every clause keyword / boolean operator followed by an operand; no dangling comma. -/
 def lintCodes (text : Codes) (supplied : List Codes) : Lint :=
   let lx := lex text
-  let sc := scan lx.toks none none false ⟨[], []⟩
-  let unbound := sc.used.filter (fun x => !sc.bound.contains x)
+  let sc := scan lx.toks none none St.init
   let pars := lx.toks.foldl (fun acc t => match t with | .par x => addNew acc x | _ => acc) []
   let missing := pars.filter (fun x => !supplied.contains x)
   let d1 := if !lx.closed || !balAux lx.toks [] then ["unbalanced"] else []
   let d2 := if unexpanded lx.stripped then ["unexpanded-template"] else []
   let d3 := if missing.isEmpty then [] else ["missing-parameter"]
-  let d4 := if unbound.isEmpty then [] else ["unbound-variable"]
-  ⟨d1 ++ d2 ++ d3 ++ d4, unbound, missing⟩
+  let d4 := if sc.unbound.isEmpty then [] else ["unbound-variable"]
+  let d5 := if sc.emptyClause then ["empty-clause"] else []
+  let d6 := if sc.dangling then ["dangling-comma"] else []
+  ⟨d1 ++ d2 ++ d3 ++ d4 ++ d5 ++ d6, sc.unbound, missing⟩
 
 def lint (text : Text) (supplied : List Text) : Lint := lintCodes text supplied
 
@@ -375,5 +469,16 @@ def valueNames : List Text := [t!"node_id", t!"node_a", t!"node_b", t!"node_z", 
 def canonEnv : Env :=
   ⟨identNames.map (fun n => (n, t!"X")), valueNames.map (fun n => (n, t!"v")),
    [(t!"props", [canonRow]), (t!"merge_properties", [canonRow]), (t!"component_counts", [canonRow])]⟩
+
+/-- the same with every mapping EMPTY (empty props dict, empty merge_properties, no counted components) -/
+def emptyMapsEnv : Env := ⟨canonEnv.idents, canonEnv.values,
+  [(t!"props", []), (t!"merge_properties", []), (t!"component_counts", [])]⟩
+
+/-- mappings with entries, but no counted components -/
+def propsOnlyEnv : Env := ⟨canonEnv.idents, canonEnv.values,
+  [(t!"props", [canonRow]), (t!"merge_properties", [canonRow]), (t!"component_counts", [])]⟩
+
+/-- the template iterates over a mapping -/
+def usesMaps (t : List Piece) : Bool := t.any (fun p => match p with | .rep _ _ _ => true | _ => false)
 
 end FimVerif.Cypher
